@@ -7,7 +7,8 @@ canon_model = enccommon.cert_canon_model
 
 PID = 'C16'
 RULE = ('envelope generator: {05, 06, damaged, no} header x {RS EOT, RS only, EOT only, no} trailer x bodies of length 0..40 from '
-        'every alphabet x macro flag x FNC1 flag x mode subsets, each encoded then decoded (rt); non-trivial = message with a '
+        'every alphabet x macro flag x FNC1 flag x mode subsets, each encoded then decoded (rt); envelopes whose digit / letter body fills a '
+        'single-symbol list (body lengths around the capacity, where the compacted message fits and the verbatim one does not); non-trivial = message with a '
         'header or trailer fragment')
 THEOREMS = 'C16_first_codeword, C16_detection, C16_strip_sets_input, C16_stream_shape, C16_decoder_macro05, C16_decoder_macro06, C16_decoder_fnc1, C16_macro_roundtrip_ascii_only, C16_fnc1_roundtrip_ascii_only, C16_macro_roundtrip_ab, C16_fnc1_roundtrip_ab'
 ASSUMPTIONS = ['the sort order of remove_hopeless_cases is taken from the implementation (hook trace)']
@@ -29,6 +30,25 @@ def gen_cases(rng, tier, ctx):
                             m = 63 if rng.chance(2, 3) else gen.rand_modes(rng)
                             cs.append({'line': gen.encode_line(d, gen.ALL48, m, mac, f, None).replace('encode', 'rt', 1), 'cat': 'envelope',
                                        'cfg': dict(data=d, wl=gen.ALL48, modes=m, macros=bool(mac), fnc1=bool(f), eci=None)})
+    # envelopes whose body fills a restricted symbol list: single-symbol lists, digit / letter bodies of the lengths around
+    # 2 x (capacity - 1) and (capacity - 1), where the compacted message fits and the verbatim one does not
+    caps = gen.caps()
+    idxs = list(range(len(caps)))
+    if tier == 'quick':
+        idxs = [i for i in idxs if caps[i] <= 22 or rng.chance(1, 5)]
+    for i in idxs:
+        c = caps[i]
+        for kind, per in (('digits', 2), ('c40', 1)):
+            for delta in (-4, -2, -1, 0, 1, 2):
+                L = (c - 1) * per + delta
+                if L < 0 or L > 3200:
+                    continue
+                body = [rng.choice(gen.ALPH[kind]) for _ in range(L)]
+                h = rng.choice([gen.H05, gen.H06])
+                d = h + body + gen.TRAIL
+                for mac in (1, 0) if delta == 0 else (1,):
+                    cs.append({'line': gen.encode_line(d, [i], 63, mac, 0, None).replace('encode', 'rt', 1), 'cat': 'envelope-at-capacity',
+                               'cfg': dict(data=d, wl=[i], modes=63, macros=bool(mac), fnc1=False, eci=None)})
     return cs
 
 
